@@ -12,8 +12,8 @@ Img == M1("image", S("img"))
 Base ==
   M([k \in {"services", "networks", "volumes", "secrets", "configs"} |->
      CASE k = "services" -> M([s \in {"a", "b", "off"} |->
-              CASE s = "a" -> M([f \in {"image", "depends_on", "networks", "volumes", "secrets", "configs"} |->
-                                   CASE f = "image" -> S("img") [] f = "depends_on" -> M1("b", Dep) [] f = "networks" -> M1("n", Null)
+              CASE s = "a" -> M([f \in {"image", "depends_on", "networks", "volumes", "secrets", "configs", "healthcheck"} |->
+                                   CASE f = "image" -> S("img") [] f = "healthcheck" -> M2("test", L(<<S("CMD"), S("true")>>), "interval", S("10s")) [] f = "depends_on" -> M1("b", Dep) [] f = "networks" -> M1("n", Null)
                                      [] f = "volumes" -> Sq1(M3("type", S("volume"), "source", S("v"), "target", S("/d")))
                                      [] f = "secrets" -> Sq1(M1("source", S("s"))) [] f = "configs" -> Sq1(M1("source", S("c")))])
                 [] s = "b" -> Img
